@@ -674,6 +674,8 @@ class ObjectDomain(LazyGenerators, EffectDomain):
 
     _PURE_CALLS = ("attrgetter", "itemgetter", "methodcaller", "partial", "frozenset", "tuple", "list", "dict", "set", "map", "zip", "sorted", "reversed", "enumerate", "range", "chain", "namedtuple")
 
+    _PURE_EXTRA_CALLS = ()   # (names of module-level namedtuples, while a module table is examined)
+
     @classmethod
     def _pure_expression(cls, expr, depth=0):
         """An expression whose value depends on nothing that changes: literals, names of the module, displays and calls of
@@ -688,8 +690,14 @@ class ObjectDomain(LazyGenerators, EffectDomain):
             return all(cls._pure_expression(x.value if isinstance(x, ast.Starred) else x, depth + 1) for x in expr.elts)
         if isinstance(expr, ast.Dict):
             return all(k is not None and cls._pure_expression(k, depth + 1) for k in expr.keys) and all(cls._pure_expression(v, depth + 1) for v in expr.values)
+        if isinstance(expr, (ast.ListComp, ast.SetComp, ast.GeneratorExp, ast.DictComp)):
+            parts = [expr.key, expr.value] if isinstance(expr, ast.DictComp) else [expr.elt]
+            return all(not g.is_async and cls._pure_expression(g.iter, depth + 1) and all(cls._pure_expression(c_, depth + 1) for c_ in g.ifs) for g in expr.generators) \
+                and all(cls._pure_expression(p_, depth + 1) for p_ in parts)
+        if isinstance(expr, ast.Attribute) and isinstance(expr.value, ast.Name):
+            return True
         if isinstance(expr, ast.Call):
-            return (dotted(expr.func) or "").split(".")[-1] in cls._PURE_CALLS and all(cls._pure_expression(a.value if isinstance(a, ast.Starred) else a, depth + 1) for a in expr.args) \
+            return (dotted(expr.func) or "").split(".")[-1] in cls._PURE_CALLS + tuple(cls._PURE_EXTRA_CALLS) and all(cls._pure_expression(a.value if isinstance(a, ast.Starred) else a, depth + 1) for a in expr.args) \
                 and all(k.arg is not None and cls._pure_expression(k.value, depth + 1) for k in expr.keywords)
         return False
 
@@ -719,8 +727,10 @@ class ObjectDomain(LazyGenerators, EffectDomain):
                             found.append((n, t))
                 elif isinstance(n, ast.Global) and name in n.names:
                     found.append((n, None))
+            ObjectDomain._PURE_EXTRA_CALLS = tuple(self._module_namedtuples(fr))
             ok = len(found) == 1 and isinstance(found[0][0], (ast.Assign, ast.AnnAssign)) and isinstance(found[0][1], ast.Name) and getattr(found[0][0], "_func", None) is None \
                 and getattr(found[0][0], "_class", None) is None and (isinstance(found[0][0].value, self._LITERAL_NODES) or self._pure_constructor(found[0][0].value)
+                                                                      or (isinstance(found[0][0].value, (ast.DictComp, ast.ListComp, ast.SetComp)) and self._pure_expression(found[0][0].value))
                                                                       or self._made_by_repo_function(mod, found[0][0].value))
             cache[name] = found[0][0].value if ok else None
         expr = cache[name]
@@ -1734,8 +1744,10 @@ class ObjectDomain(LazyGenerators, EffectDomain):
             ok = True
             for a, v in zip(call.args, r.value[: len(call.args)]):
                 if isinstance(a, ast.Starred):
-                    els = interp._exact_elements(v)
+                    els = interp._exact_elements(unbox(v, r.state))
                     if els is None:
+                        if os.environ.get("TTSA_TRACE_ARGS"):
+                            print("UNKNOWN *", str(v)[:200])
                         ok = False
                         break
                     pos.extend(els)
@@ -1744,9 +1756,12 @@ class ObjectDomain(LazyGenerators, EffectDomain):
             kw = []
             for k, v in zip(call.keywords, r.value[len(call.args):]):
                 if k.arg is None:
+                    v = unbox(v, r.state)   # (a dict some object holds: what it holds now)
                     if isinstance(v, tuple) and v[:1] == ("kwdict",):
                         kw.extend(v[1])
                     else:
+                        if os.environ.get("TTSA_TRACE_ARGS"):
+                            print("UNKNOWN **", str(v)[:200])
                         ok = False
                 else:
                     kw.append((k.arg, v))
@@ -2336,8 +2351,31 @@ class ObjectDomain(LazyGenerators, EffectDomain):
                             else:
                                 out.extend(self.apply(interp, g.value, pos, kw, s2, fr))
                     return out
+            # <a namedtuple held in a variable>.field(...): the field holds something callable
+            if isinstance(f_, ast.Attribute) and isinstance(f_.value, ast.Name) and st.has(fr.local(f_.value.id)):
+                held = unbox(st.get(fr.local(f_.value.id)), st)
+                if isinstance(held, tuple) and held[:1] == ("tuple",) and any(f_.attr in fields and len(fields) == len(held) - 1 for fields in self._module_namedtuples(fr).values()):
+                    got = self.attr_of_value(interp, held, f_.attr, st, fr)
+                    if got and all(r.kind == "val" and isinstance(r.value, tuple) and r.value[:1] and (r.value[0] in CALLABLE_TAGS + ("wobj",) or is_inst(r.value)) for r in got):
+                        out = []
+                        for r in got:
+                            for bad, pos, kw, s2 in self._call_args(interp, call, r.state, fr):
+                                if bad is not None:
+                                    out.append(bad)
+                                elif pos is None:
+                                    out.append(self._unknown_arguments(call, s2, fr))
+                                else:
+                                    out.extend(self.apply(interp, r.value, pos, kw, s2, fr))
+                        return out
             # <a namedtuple held in a variable>._asdict()
             if isinstance(f_, ast.Attribute) and f_.attr == "_asdict" and isinstance(f_.value, ast.Name) and st.has(fr.local(f_.value.id)) and not call.args and not call.keywords:
+                held = unbox(st.get(fr.local(f_.value.id)), st)
+                nts = self._module_namedtuples(fr)
+                makers = {dotted(s_.value.func) for s_ in ast.walk(fr.func) if isinstance(s_, ast.Assign) and isinstance(s_.value, ast.Call) and dotted(s_.value.func) in nts
+                          and any(isinstance(t_, ast.Name) and t_.id == f_.value.id for t_ in s_.targets)}
+                if len(makers) == 1 and isinstance(held, tuple) and held[:1] == ("tuple",) and len(held) - 1 == len(nts[next(iter(makers))]):
+                    # (several namedtuples of the module have this many fields: the one this variable was made with)
+                    return [val(("kwdict", tuple(zip(nts[next(iter(makers))], held[1:]))), st)]
                 got = self.attr_of_value(interp, unbox(st.get(fr.local(f_.value.id)), st), "_asdict", st, fr)
                 if got and all(r.kind == "val" and isinstance(r.value, tuple) and r.value[:1] == ("const-fn",) for r in got):
                     return [val(r.value[1], r.state) for r in got]
